@@ -339,6 +339,7 @@ impl Prop for C18 {
             0..=5 => {
                 let big = thorough && rng.chance(1, 60);
                 let p = CallSetParams {
+                    allow_no_gt: true,
                     allow_ploidy: rng.chance(1, 10),
                     ..CallSetParams::standard(if big { 40 } else { 8 }, if big { 3000 } else { 12 })
                 };
